@@ -463,7 +463,8 @@ func (c *BoolCtx) CmpExpr(cm *CmpInfo) *BExpr {
 	}
 	lt := func(a, b *Int) *BExpr {
 		// a < b
-		if bc, ok := b.IsConst(); ok && !cm.Sgn {
+		nonneg := a.Hi <= mask(a.W)>>1 && b.Hi <= mask(b.W)>>1
+		if bc, ok := b.IsConst(); ok && (!cm.Sgn || nonneg) {
 			if bc == 0 {
 				return BConst(false)
 			}
@@ -480,7 +481,7 @@ func (c *BoolCtx) CmpExpr(cm *CmpInfo) *BExpr {
 			// constant on the left, so `q >= 32` and `q > 31` are one proposition
 			return BNot(BVar("lt(" + linName(LinConst(b.W, bc-1)) + "," + linName(a.Lin) + ")"))
 		}
-		if ac, ok := a.IsConst(); ok && !cm.Sgn { // c < b
+		if ac, ok := a.IsConst(); ok && (!cm.Sgn || nonneg) { // c < b
 			if (ac+1)&ac == 0 { // c = 2^k-1: b >= 2^k
 				k := bits.TrailingZeros64(ac + 1)
 				if b.Hi < uint64(1)<<uint(k+1) && k < b.W {
@@ -492,8 +493,8 @@ func (c *BoolCtx) CmpExpr(cm *CmpInfo) *BExpr {
 			}
 		}
 		n := "lt"
-		if cm.Sgn {
-			n = "slt"
+		if cm.Sgn && !(a.Hi <= mask(a.W)>>1 && b.Hi <= mask(b.W)>>1) {
+			n = "slt" // (a signed comparison of non-negative operands is the unsigned one)
 		}
 		return BVar(n + "(" + linName(a.Lin) + "," + linName(b.Lin) + ")")
 	}
